@@ -99,3 +99,7 @@ mod tests {
         assert_eq!(writer.len(), 0);
     }
 }
+
+// Verification hook: unit-level harnesses are compiled as a child module (only with `--cfg prometheus_verif`).
+#[cfg(all(prometheus_verif, any(kani, prometheus_verif_replay)))]
+include!(concat!(env!("PROMETHEUS_VERIF_INCRATE"), "/encoder_mod.rs"));
